@@ -1,5 +1,5 @@
 #!/bin/bash
-# check_corpus.sh [repo] [osmcheck] : runs every seeded change (must be reported by at least one check) and every
+# check_corpus.sh [repo-worktree] [osmcheck-binary] [verif-dir] ["C07 C02 ..."] : runs every seeded change (must be reported by at least one check) and every
 # behaviour-preserving refactoring (must be reported by none) against the quick checks. Uses a private worktree.
 set -u
 bin=${2:-/verif/bin/osmcheck}
@@ -7,7 +7,7 @@ verif=${3:-/verif}
 wt=${1:-/tmp/corpus-repo}
 export GOFLAGS=-mod=mod GOPROXY=off GOSUMDB=off GOTOOLCHAIN=local GOWORK=off
 if [ ! -d $wt ]; then git -C /repo worktree prune; git -C /repo worktree add -q --detach $wt HEAD; fi
-props=$(python3 -c "import json;print(' '.join(c['property_id'] for c in json.load(open('/verif/MANIFEST.json'))['checks']))")
+props=${4:-$(python3 -c "import json;print(' '.join(c['property_id'] for c in json.load(open('/verif/MANIFEST.json'))['checks']))")}
 run() { # patch -> list of props with exit!=0
   git -C $wt checkout -q -- . ; git -C $wt clean -fdq
   git -C $wt apply $1 || { echo "APPLY-FAILED"; return; }
